@@ -1,3 +1,33 @@
-(* C17 - placeholder (DESIGN.md 7 C17). *)
-From DL Require Import Base Entry.
-Example C17_placeholder : True. Proof. exact I. Qed.
+(* C17 (partial) - pydantic models: per-validation context in field order.
+   - [C17_field_order]: the outcome of a validation does not depend on the order in which the keyword values
+     arrive (values are looked up by field name; fields are validated in declaration order);
+   - every validation (construction, model_validate, a nested model's own validation) starts from a fresh context:
+     [run_pydantic] is [run_pydantic_from (ctx0 [])] by definition, so nothing is shared between validations, and
+     within one validation the fields are one context (C14_pydantic_is_one_context), to which C01 / C02 apply;
+   - Optional fields given None are skipped (field_queue / run_pydantic_from);
+   - [C17_assignment_refuted]: as the code stands, with validate_assignment=True the construction-time context is
+     still in the instance and already has every validated field registered, so assigning even a conforming value
+     is refused with the duplicate-name error: the known finding K2 (the property's assignment clause is false of
+     the faithful model; the witness is replayed on the implementation by harness/props/c17.py);
+   - the class-definition dtype cross-check and what model_dump / iteration / repr expose are observed by the
+     harness only (pydantic's own machinery). *)
+From Coq Require Import Permutation.
+From DL Require Import Base Lexer Parser Eval Shape Dtypes Check Context Hints Call Entry Structural PydanticProofs.
+
+Theorem C17_field_order : forall fields c vals vals', Permutation vals vals' -> NoDup (map fst vals) ->
+  run_pydantic_from c fields vals = run_pydantic_from c fields vals'.
+Proof. exact keyword_order_irrelevant. Qed.
+Theorem C17_fresh_context_per_validation : forall fields vals, run_pydantic fields vals = run_pydantic_from (ctx0 []) fields vals.
+Proof. reflexivity. Qed.
+Theorem C17_optional_none_skipped : forall c n a r vals, arg_lookup n vals = Some VNone -> a_opt a = true ->
+  run_pydantic_from c ((n, a) :: r) vals = run_pydantic_from c r vals.
+Proof. intros c n a r vals H Ho. simpl. rewrite H, Ho. reflexivity. Qed.
+Theorem C17_assignment_refuted : forall fields vals cF n a x y,
+  run_pydantic fields vals = DOk cF -> In (n, a) fields -> arg_lookup n vals = Some (VArr x) ->
+  check a y n = DOk tt -> assign_field cF n a y = DRej (EDuplicate n).
+Proof.
+  intros fields vals cF n a x y H Hin Hl Hc. apply assignment_is_refused; auto.
+  unfold run_pydantic in H. eapply validated_fields_registered; eauto.
+Qed.
+Redirect "C17.assumptions.1" Print Assumptions C17_field_order.
+Redirect "C17.assumptions.2" Print Assumptions C17_assignment_refuted.
